@@ -7,7 +7,7 @@
     histories (fillers + [write_config]) is checked by evaluation of the executable oracle
     [exact_all] on the model and on the real library for every generated history; see DESIGN.md. *)
 Require Import Sedpack.Model.Base Sedpack.Generated.GenMerge Sedpack.Model.Filler Sedpack.Model.Meta.
-Require Import Sedpack.Proofs.MergeBasics Sedpack.Proofs.MergeProofs.
+Require Import Sedpack.Proofs.MergeBasics Sedpack.Proofs.MergeProofs Sedpack.Proofs.HistoryProofs.
 
 (** For every fuel, every non-empty list of updates below a common directory [p] (of depth
     [c]), and every file system whose list documents below [p] are locally well formed (what
@@ -29,6 +29,18 @@ Theorem c04_merge_rebuilds_exact_subtree :
     (forall d, sl_files (load_or_create fs' d) = sl_files (load_or_create fs d)).
 Proof. exact merge_spec. Qed.
 Print Assumptions c04_merge_rebuilds_exact_subtree.
+
+(** The lift over whole histories: for every shard size, every history of sessions (fillers into the split root or any
+    sub-directory — new, nested, or already known — and multi-writer calls, each with any sequence of writes, metadata changes
+    and rejected writes in any interleaving of splits): whenever the history completes, the summary the dataset description
+    holds for every split is exact for the whole subtree below it (every shard count, list total, child summary and digest,
+    every listed shard stored in the directory of the list naming it with the recorded count and digest). *)
+Theorem c04_every_history_is_exact :
+  forall eps : nat, 1 <= eps -> forall (h : list session) (fs : fsT) (info : dinfo),
+    run_history eps h = Ok (fs, info) ->
+    forall (s : nat) (li : list_info), dget info s = Some li -> li_dir li = [s] /\ exact FUEL fs li = true.
+Proof. exact history_exact. Qed.
+Print Assumptions c04_every_history_is_exact.
 
 (** Non-vacuity and a whole-history instance: nested, reused and multi-writer sessions into two
     splits end in a state that the executable exactness oracle accepts (all counts, totals, child
